@@ -81,16 +81,27 @@ def check_src(rep, prog):
     creator = Sym("creator")
     src = I.new(SRCQ + "SRC", [st, Const(0x5053), SECLEN, VER, SUB, COMP, creator])
     I.obj(src).attrs["asciiString"] = Sym("ascii")
+    # the kind of reference code the section carries is left open: the parser is chosen by the creator alone
+    stype = Sym("srcType")
+    if "srcType" in I.obj(src).attrs:
+        I.obj(src).attrs["srcType"] = stype
     hw = I.mk_list([Sym("hw%d" % i) for i in range(2, 10)])
     r = I.method(src, "parse", [hw])
     imps = [e for e in I.events if e.kind == "import_module"]
     bad = None
     for e in imps:
-        for c in ("O", "B", "h"):
-            got = ev_name(e.data[0], {creator: c})
-            want = "srcparsers.%ssrc.%ssrc" % (c.lower(), c.lower())
-            if got != want and bad is None:
-                bad = "creator %r -> %r, documented name is %r" % (c, got, want)
+        for c in ("O", "B", "h", "H", "T"):
+            for ty, code in (("BC", "BC8A1234"), ("BD", "BD8D1234"), ("11", "11002000"), ("00", "00000000")):
+                try:
+                    live = bool(evaluate(e.guard, {creator: c, stype: ty, Sym("ascii"): code, Op("len", hw): 8}))
+                except Exception:
+                    live = True
+                if not live:
+                    continue
+                got = ev_name(e.data[0], {creator: c, stype: ty, Sym("ascii"): code})
+                want = "srcparsers.%ssrc.%ssrc" % (c.lower(), c.lower())
+                if got != want and bad is None:
+                    bad = "creator %r (reference code %s) -> %r, documented name is %r" % (c, code, got, want)
     rep.check(bool(imps) and bad is None, rule, "SRC parser module = srcparsers.<creator lower>src.<same>", "SRC.parse", "importlib.import_module(srcParserMod)", bad or "no import")
     calls = [e for e in I.events if e.kind == "methcall" and e.data[1] == "parseSRCToJson"]
     want_args = (Sym("ascii"),) + tuple(Sym("hw%d" % i) for i in range(2, 10))
@@ -99,8 +110,11 @@ def check_src(rep, prog):
               "SRC parser module receives %s" % ([repr(e.data[2])[:200] for e in calls][:1],))
     # containment: import and call each covered by a handler; every failure returns ''
     handlers = {e.data[0]: e for e in I.events if e.kind == "handler"}
-    okc = all(any(x in handlers and handlers[x].data[1] in ("Exception", "BaseException", None) for x in neg_excs(e.guard)) for e in calls) and bool(calls)
-    oki = all(any(x in handlers for x in neg_excs(e.guard)) for e in imps) and bool(imps)
+    # (the try statements whose BODY holds the call: code after a try whose handler returns carries the same "no exception so
+    # far" condition but is not protected by it)
+    from .c12 import tries_covering
+    okc = all(any(x in handlers and handlers[x].data[1] in ("Exception", "BaseException", None) for x in tries_covering(I.events, e)) for e in calls) and bool(calls)
+    oki = all(any(x in handlers for x in tries_covering(I.events, e)) for e in imps) and bool(imps)
     rep.check(okc and oki, "C18.R4.containment", "SRC parser import and call are each inside try/except", "SRC.parse", "try: ... except",
               "a failing SRC parser module is not contained: import covered=%s, call covered by 'except Exception'=%s" % (oki, okc))
     hf = pelx.handler_failures(I.events)
